@@ -17,9 +17,10 @@ type vScript struct {
 	wa      [16]uint16
 	wv      [16]uint8
 	bound   int
-	sawHalt bool // a HALT opcode has been delivered (and so executed) in this Run
-	shapes  int  // instruction shapes offered: 1 HALT, 2 NOP, 4 JP nn, 8 LD BC,nn (INC A always); 0 = all
-	cpu     *CPU // when set, the device may raise an NMI while an instruction is fetched
+	sawHalt bool   // a HALT opcode has been delivered (and so executed) in this Run
+	haltAt  uint16 // the address it was fetched from
+	shapes  int    // instruction shapes offered: 1 HALT, 2 NOP, 4 JP nn, 8 LD BC,nn (INC A always); 0 = all
+	cpu     *CPU   // when set, the device may raise an NMI while an instruction is fetched
 }
 
 func (m *vScript) Get(addr uint16) uint8 {
@@ -46,7 +47,7 @@ func (m *vScript) Get(addr uint16) uint8 {
 	}
 	// instruction shapes: HALT | NOP | JP nn | LD BC,nn | INC A
 	if sh&1 != 0 && vCase(vBoolN("halt", k)) {
-		m.sawHalt = true
+		m.sawHalt, m.haltAt = true, addr
 		return 0x76
 	}
 	if sh&2 != 0 && vCase(vBoolN("nop", k)) {
@@ -141,6 +142,10 @@ func VC08Script(bp, k, ints int) {
 	vAssert("HALT", c1.HALT == c2.HALT)
 	vAssert("pending", (c1.Interrupt == nil) == (c2.Interrupt == nil))
 	vAssert("halted-means-nil", vImplies(vErrKind(err) == 0, c1.HALT))
+	// independent of the twin: halted = PC still addresses the HALT opcode
+	if vErrKind(err) == 0 && d1.sawHalt {
+		vAssert("pc-on-the-halt", c1.PC == d1.haltAt)
+	}
 	vAssert("writes", d1.nw == d2.nw)
 	if d1.nw == d2.nw {
 		for i := 0; i < d1.nw && i < 16; i++ {
@@ -339,13 +344,14 @@ func VC08Prog(k int) {
 // the first Step's reads are arbitrary, and every read after the first Step
 // (n1 reads) returns HALT, so that Run comes to an end by itself.
 type vIdxMem struct {
-	gets int
-	n1   int // number of reads of the first Step; < 0 while it is being measured
-	pre  [4]int
-	tail int // reads served after the first Step
-	nw   int
-	wa   [8]uint16
-	wv   [8]uint8
+	gets     int
+	n1       int // number of reads of the first Step; < 0 while it is being measured
+	pre      [4]int
+	tail     int    // reads served after the first Step
+	lastHalt uint16 // address of the last tail read (a HALT opcode)
+	nw       int
+	wa       [8]uint16
+	wv       [8]uint8
 }
 
 func (m *vIdxMem) Get(addr uint16) uint8 {
@@ -356,6 +362,7 @@ func (m *vIdxMem) Get(addr uint16) uint8 {
 		if m.tail > 6 {
 			vStop("tail bound")
 		}
+		m.lastHalt = addr
 		return 0x76
 	}
 	if i < 4 && m.pre[i] >= 0 {
@@ -455,6 +462,14 @@ func VC08Any(tbl, op, intr int) {
 	}
 	err := c1.Run(context.Background())
 	vAssert("result", vErrKind(err) == wk)
+	// independent of the twin: halted = PC still addresses the HALT opcode
+	if vErrKind(err) == 0 {
+		if d1.tail > 0 {
+			vAssert("pc-on-the-halt", c1.PC == d1.lastHalt)
+		} else if tbl == 0 && op == 0x76 && intr == 0 {
+			vAssert("pc-on-the-halt", c1.PC == s.PC)
+		}
+	}
 	vAssert("reads", d1.gets == d2.gets)
 	vAssert("state", c1.States == c2.States)
 	vAssert("HALT", c1.HALT == c2.HALT)
